@@ -77,8 +77,8 @@ PROPS = {
         'e3_always': ['symbols'],
         'e3': ['symbols'],
         'units': ['symbols'],
-        'decided': 'path_to_function / path_to_function_inner: a returned path addresses, in the given program, a subtree whose tree hash equals the symbol-table key (for every program and hash); rewrite_in_program builds exactly (a (a (q . path/2) env) (c env 1))',
-        'not_covered': ['add_defun records hash(code) -> name and the argument list: bounded stand-in only (E3: 5 programs incl. two functions with identical code)', 'later passes leave quoted bodies alone', 'every reachable non-inline function has an entry', 'extracted code computes what the source function computes'],
+        'decided': 'path_to_function / path_to_function_inner: a returned path addresses, in the given program, a subtree whose tree hash equals the symbol-table key (for every program and hash); rewrite_in_program builds exactly (a (a (q . path/2) env) (c env 1)); add_defun records, for the code it stores, hex(tree hash of that code) -> name, that key + "_arguments" -> the printed argument list, and the code itself under the name in the defuns table',
+        'not_covered': ['that no later add_defun with the same key overwrites only part of an entry (identical code under two names): bounded stand-in only (E3: 5 programs incl. two functions with identical code)', 'later passes leave quoted bodies alone', 'every reachable non-inline function has an entry', 'extracted code computes what the source function computes'],
     },
     'C01': {
         'e3_always': ['source_meaning'],
